@@ -393,7 +393,7 @@ class Rule(NamedBox):
         return ri
 
     def _pretty(self, lean=False):
-        str_template = "{is_name}{no_memo}{name}{base}{params}:{exp}"
+        str_template = "{is_name}{no_memo}{name}{params}{base}:{exp}"
 
         if lean:
             params = ''
@@ -728,7 +728,10 @@ class Grammar(Model):
         directives = ''
         # noinspection PyUnresolvedReferences
         for name, value in self.directives.items():
-            if name in regex_directives:
+            if name == 'whitespace' and not value:
+                # NOTE: '//' would start a comment
+                directives += f'@@{name} :: None\n'
+            elif name in regex_directives:
                 if '/' in value:
                     directives += f'@@{name} :: ?"{value}"\n'
                 else:
@@ -745,7 +748,8 @@ class Grammar(Model):
         bfmt: str = ""
         for k in sorted(repr(k) for k in self.keywords):
             batch += [k]
-            bfmt = f"@@keyword :: {' '.join(batch)}"
+            # NOTE: in parentheses, or the name of the rule that follows reads as one more keyword
+            bfmt = f"@@keyword :: ({' '.join(batch)})"
             if len(bfmt) >= PEP8_LLEN - 8:
                 keywordsets += [bfmt]
                 batch = []
